@@ -25,7 +25,7 @@ from ..paths import *
 EXPLANATION = ("The four window accessors are generic straight-line functions: their guarded expressions are folded over a table of "
                "window lengths, offsets (including 2^64-boundary values) and value sizes; the retry loop and the closure wrapping "
                "are decided by path enumeration of read_consistent and by closure-creation links in the drivers' MIR.")
-FLOORS = {'window_builders': 1, 'accessors': 4, 'guard_rows': 800, 'wrapped_values': 5}
+FLOORS = {'region_windows': 1, 'window_builders': 1, 'accessors': 4, 'guard_rows': 800, 'wrapped_values': 5}
 
 WRAPPED = {  # driver ADT -> what is read consistently
     'device::blk::VirtIOBlk': 'capacity', 'device::socket::vsock::VirtIOSocket': 'guest CID', 'device::console::VirtIOConsole': 'size',
@@ -36,6 +36,7 @@ WRAPPED = {  # driver ADT -> what is read consistently
 def run(F, R):
     g1_bounds(F, R)
     g5_window_extent(F, R)
+    g7_region_window(F, R)
     g2_retry(F, R)
     g3_wrapped(F, R)
     g6_generation_register(F, R)
@@ -175,6 +176,73 @@ def g5_window_extent(F, R, rule='G5'):
             R.check(bad is None, rule, inst, where, 'count*size_of<T> <= capability length for %d (length,size) rows: %s' % (rows, fmt(cnt)[:80]),
                     'configuration window extent: %s' % bad)
     R.count('window_builders', n)
+
+
+def g7_region_window(F, R, rule='G7'):
+    """A configuration window carved out of a caller-described region (pointer + size parameters) at a constant offset ends where
+    the region ends: for every region size, on each feasible path that builds the window, offset + window length <= size, and a
+    region smaller than the offset builds no window."""
+    n = 0
+    for b in sorted(F.bodies.values(), key=lambda x: x['id']):
+        if not F.handwritten(b) or 'transport' not in b['id'] or b['kind'] not in ('AssocFn', 'Fn'):
+            continue
+        if not any(bl['term']['k'] == 'call' and 'slice_from_raw_parts' in bl['term'].get('fn', '') for bl in b['blocks']):
+            continue
+        szp = [i + 1 for i, l in enumerate(b['locals'][1:b['arg_count'] + 1]) if l['ty'] == 'usize']
+        if len(szp) != 1:
+            continue
+        sg = supergraph(F, b['id'], opaque=lambda t, bb: True, tag='g7', max_depth=0)
+        where = fn_site(F, b['id'])
+        try:
+            paths = [p for p in PathEnum(sg).run() if not p.panicked]
+        except PathLimit as e:
+            R.abstain(rule, '%s:region-window' % b['id'], str(e), where)
+            continue
+        builds = [(p, e) for p in paths for e in p.effects if e[0] == 'call' and 'slice_from_raw_parts' in e[2]]
+        if not builds:
+            continue
+        # constant offset of the window inside the region: the byte_add / add applied to the pointer operand
+        offs = set()
+        for p, e in builds:
+            for x in subterms(e[3][0]):
+                if x[0] == 'call' and x[2].rsplit('::', 1)[-1] in ('byte_add', 'add', 'offset', 'byte_offset') and len(x[3]) > 1 and fold_const(x[3][1]) is not None:
+                    offs.add(fold_const(x[3][1]))
+        if len(offs) != 1 or not all(derives_from(e[3][1], lambda y: y == ('param', szp[0])) or fold_const(e[3][1]) is not None for p, e in builds):
+            continue      # not a window at a constant offset of a size-described region
+        off = offs.pop()
+        n += 1
+        bad = None
+        rows = 0
+        for size in sorted(set([0, 1, off - 1, off, off + 1, off + 8, 2 * off - 1, 2 * off, 2 * off + 1, 0x1000, 0x10000])):
+            if size < 0:
+                continue
+            def leaf(t, size=size):
+                if t == ('param', szp[0]):
+                    return size
+                raise Unfoldable(fmt(t)[:80])
+            fo = Folder(leaf)
+            try:
+                hit = [p for p in paths if path_holds(fo, p)]
+                rows += 1
+                for p in hit:
+                    for e in p.effects:
+                        if e[0] == 'call' and 'slice_from_raw_parts' in e[2]:
+                            ln = fo.ev(e[3][1])
+                            if off + ln > size:
+                                bad = 'region of %#x bytes: the window starts at offset %#x and is %#x bytes long - it extends %#x bytes past the region' % (
+                                    size, off, ln, off + ln - size)
+            except Unfoldable as e_:
+                bad = 'unfoldable: %s' % e_
+                break
+            if bad:
+                break
+        R.tables += rows
+        if bad and bad.startswith('unfoldable'):
+            R.abstain(rule, '%s:region-window' % b['id'], bad, where)
+            continue
+        R.check(bad is None, rule, '%s:region-window' % b['id'], where, 'offset %#x + window length <= region size for %d sizes' % (off, rows),
+                'configuration window of a size-described region: %s' % bad)
+    R.count('region_windows', n)
 
 
 def eval_access(paths, present, ln, off, szt, alt):
